@@ -39,10 +39,10 @@ class CaseResult:
         self.problems.append((kind, detail))
 
 
-def compare_case(desc, driver, rng, R=3, built=None, points=None, want=('rows', 'f')):
+def compare_case(desc, driver, rng, R=3, built=None, points=None, want=('rows', 'f'), extra_phys=False):
     """returns CaseResult; `points` (list of (xv,pv,fv)) can be supplied for replays"""
     res = CaseResult()
-    b = built if built is not None else B.build(desc)
+    b = built if built is not None else B.build(desc, extra_phys=extra_phys)
     res.built = b
     dl = Mo.desc_lines(desc)
     pts = points if points is not None else [rand_point(rng, b) for _ in range(R)]
